@@ -603,5 +603,7 @@ def model_measure(pid, cmd, cases):
         for (name, key), val in (tables[j].items() if j < len(tables) else ()):
             if name == "lex" and val is not None and strip1("".join(v for _, v in val)) != strip1(key[1]):
                 lex_ok = False
-        res[i] = {"reply": replies[j], "lexer_ok": lex_ok}
+        files = any(name in ("p2d", "dj", "p2r") and val is not None
+                    for (name, key), val in (tables[j].items() if j < len(tables) else ()))
+        res[i] = {"reply": replies[j], "lexer_ok": lex_ok, "no_files": not files}
     return res
